@@ -23,7 +23,7 @@ PID = "C16"
 RULE = (
     "(1) 'on_ready': Hypothesis schedules with generated task name, args / kwargs (JSON-exact values), typed labels "
     "(int, float, bool, str, bytes), cron or time, fired through the real TaskiqScheduler.on_ready with a recording "
-    "source whose pre_send / post_send are sync or async, cancelling (ScheduledTaskCancelledError) or not, and a broker "
+    "source whose pre_send / post_send are sync, async, or plain functions returning a coroutine, cancelling (ScheduledTaskCancelledError) or not, and a broker "
     "whose kick may fail; codec JSON / pickle / JSONFormatter. Oracle: order pre_send -> kick -> post_send; cancel => no "
     "kick and no post_send; failing kick => SendTaskError and no post_send; otherwise exactly one message whose decoded "
     "task name, args, kwargs and typed labels equal the schedule's plus its schedule_id - nothing more, also when an earlier schedule of the same task with other labels went through the same scheduler instance. (2) 'label_source': a "
@@ -53,7 +53,7 @@ def on_ready_cases() -> Any:
     return st.fixed_dictionaries({
         "args": st.lists(JSONV, max_size=3), "kwargs": st.dictionaries(st.sampled_from(["a", "b", "key"]), JSONV, max_size=2),
         "labels": LABELS, "kind": st.sampled_from(["cron", "time"]),
-        "pre": st.sampled_from(["none", "sync", "async"]), "post": st.sampled_from(["none", "sync", "async"]),
+        "pre": st.sampled_from(["none", "sync", "async", "deferred"]), "post": st.sampled_from(["none", "sync", "async", "deferred"]),
         "cancel": st.sampled_from([False, False, True]), "kick_fails": st.sampled_from([False, False, False, True]),
         "codec": st.sampled_from(["json", "pickle", "jsonfmt"]), "sid": st.text(alphabet="abcdef0123456789-", min_size=1, max_size=12),
         # an earlier schedule of the SAME task fired through the same scheduler instance, with labels of its own
@@ -108,6 +108,12 @@ def run_on_ready(c: Dict[str, Any]) -> Outcome:
             log.append(name)
             if cancel:
                 raise ScheduledTaskCancelledError
+        if mode == "deferred":
+            # a plain function that returns an awaitable (e.g. a hook wrapped by an ordinary decorator): allowed by the
+            # ScheduleSource signature, the body only runs when the returned coroutine is awaited
+            def h(self: Any, task: Any) -> Any:
+                return g(self, task)
+            return h
         return g
 
     ns: Dict[str, Any] = {}
